@@ -179,11 +179,14 @@ def make_sorted_pairs(tag, parts=("from", "back", "order", "contains")):
         first = PAIRS.elem.sort().accessor(0, 0)
         st.assume(z3.Length(r) == z3.Length(s))
         # (the permutation and its inverse as functions: position k of the result holds element sigma(k) of the argument, and back)
+        sigma = z3.Function(fresh_name("sigma"), z3.IntSort(), z3.IntSort())
+        tau = z3.Function(fresh_name("tau"), z3.IntSort(), z3.IntSort())
         if "from" in parts:
-            sigma = z3.Function(fresh_name("sigma"), z3.IntSort(), z3.IntSort())
             st.assume(z3.ForAll([k], z3.Implies(z3.And(0 <= k, k < z3.Length(r)), z3.And(0 <= sigma(k), sigma(k) < z3.Length(s), r[k] == s[sigma(k)]))))
+            if "back" in parts:  # (inverse laws: the two facts do not instantiate each other for ever)
+                st.assume(z3.ForAll([k], z3.Implies(z3.And(0 <= k, k < z3.Length(r)), tau(sigma(k)) == k)))
+                st.assume(z3.ForAll([j], z3.Implies(z3.And(0 <= j, j < z3.Length(s)), sigma(tau(j)) == j)))
         if "back" in parts:
-            tau = z3.Function(fresh_name("tau"), z3.IntSort(), z3.IntSort())
             st.assume(z3.ForAll([j], z3.Implies(z3.And(0 <= j, j < z3.Length(s)), z3.And(0 <= tau(j), tau(j) < z3.Length(r), r[tau(j)] == s[j]))))
         if "order" in parts:
             st.assume(z3.ForAll([k, k2], z3.Implies(z3.And(0 <= k, k < k2, k2 < z3.Length(r)), first(r[k]) <= first(r[k2]))))
@@ -533,6 +536,28 @@ contract(
             "complete": "all(implies(" + _ANY + ", a in pos) for a in range(i))",
         }),
         MCS_LOOP2: Loop(index="t", seq="KK", invariants={"len": _INV2["len"], "len1": _INV1["len"]}),
+    },
+)
+
+# Which sides a record has: entry / exit NULL iff `_getAnchors` finds no anchor of that name for the record's glyph (own anchors first, else the font's
+# glyph of that name).  What a present side's coordinates are is `_getAnchors`' contract.
+def _sides(e, x, g):
+    return f"(iff({e} is None, not {_present(g, 'entry')}) and iff({x} is None, not {_present(g, 'exit')}))"
+
+
+_SIDES_INV = f"all({_sides(_V + '[0]', _V + '[1]', 'glyphs[src[p]]')} for p in range(len({_KS})))"
+contract(
+    MCS,
+    name="sides",
+    **{**MCS_COMMON, "hints": {MCS_PUT: [h for k, h in enumerate(MCS_COMMON["hints"][MCS_PUT]) if k != 3] + [
+        _sides("entryAnchor", "exitAnchor", "glyph"),
+    ]}},
+    ensures={"side-null-iff-no-such-anchor": "len(src) == len(result) and all(0 <= src[k] and src[k] < len(glyphs) and "
+             + _sides("result[k].entryAnchor", "result[k].exitAnchor", "glyphs[src[k]]") + " for k in range(len(result)))"},
+    canaries={"entry-always": "all(result[k].entryAnchor is not None for k in range(len(result)))"},
+    loops={
+        MCS_LOOP1: Loop(index="i", invariants={"old-keys": _OLD_KEYS, "len": _INV1["len"], "bound": _INV1["bound"], "sides": _SIDES_INV}),
+        MCS_LOOP2: Loop(index="t", seq="KK", invariants={"len": _INV2["len"], "len1": _INV1["len"], "sides": _SIDES_INV, "shape": _INV2["shape"]}),
     },
 )
 
